@@ -190,6 +190,17 @@ def collapse_roles(cc):
     for name, v in pre_as:
         if "start" in r and "tf" in r and isinstance(v, ast.BinOp) and isinstance(v.op, ast.Add) and {ast.unparse(v.left), ast.unparse(v.right)} == {r["start"], r["tf"]}:
             r["end"] = name
+    # the window variables are the names the loop works with: follow plain copies (`start = tmp`)
+    loop_names = {n.id for n in ast.walk(loop) if isinstance(n, ast.Name)}
+    for role in ("start", "end"):
+        if role in r and r[role] not in loop_names:
+            for name, v in pre_as:
+                if isinstance(v, ast.Name) and v.id == r[role] and name in loop_names:
+                    r[role + "_tmp"], r[role] = r[role], name
+    if "end" not in r and "start" in r and "tf" in r:
+        for name, v in pre_as:
+            if isinstance(v, ast.BinOp) and isinstance(v.op, ast.Add) and {ast.unparse(v.left), ast.unparse(v.right)} in ({r["start"], r["tf"]}, {r.get("start_tmp", "?"), r["tf"]}):
+                r["end"] = name
     for name, v in assigns(loop.body):
         u = ast.unparse(v).replace(" ", "")
         if u == POP and "cur" not in r:
@@ -326,6 +337,47 @@ def check_collapse(prop: str, res: Result, repo: Repo, want=("R-INTERVAL", "R-CO
                 continue
             label = label_v.f
         new_S, new_E = s2.env.get(START), s2.env.get(END)
+        # a label / window chosen through a flag (`x if on_boundary else y`) is decided case by case
+        ite_atoms = [a for a in label.atoms() if a[0] == "ite"] if isinstance(label, Frac) else []
+        for v_ in (new_S, new_E):
+            if isinstance(v_, Num):
+                ite_atoms += [a for a in v_.f.atoms() if a[0] == "ite"]
+        if ite_atoms:
+            a0 = ite_atoms[0]
+            sub_ok = True
+            for cnd, val in ((a0[1], a0[2]), (poly._neg_cond(a0[1]), a0[3])):
+                parts = list(cnd[1:]) if isinstance(cnd, tuple) and cnd[0] == "and" else [cnd]
+                if isinstance(cnd, tuple) and cnd[0] == "or":
+                    sub_ok = False  # a disjunctive case is not split further: undecided
+                    break
+                if any(poly._neg_cond(p_) in facts for p_ in parts if isinstance(p_, tuple)):
+                    continue
+                mp = {a0: val}
+                lab2 = poly.subst(label, mp)
+                S2 = poly.subst(new_S.f, mp) if isinstance(new_S, Num) else None
+                E2 = poly.subst(new_E.f, mp) if isinstance(new_E, Num) else None
+                f3 = tuple(facts) + tuple(p_ for p_ in parts if p_ not in facts)
+                ax3 = [TF - ONE, TS - mk_fn("rd", TS), mk_fn("rd", TS) + TF - TS - ONE]
+                f4 = []
+                for c in f3:
+                    if isinstance(c, tuple) and c[0] == "ontf":
+                        ax3.append(mk_fn("rd", TS) - TS)
+                    elif isinstance(c, tuple) and c[0] == "not" and isinstance(c[1], tuple) and c[1][0] == "ontf":
+                        ax3.append(TS - mk_fn("rd", TS) - ONE)
+                    else:
+                        f4.append(c)
+                f4 = tuple(f4)
+                from .facts import _contradictory as _contra
+
+                if _contra(f4, ax3):
+                    continue
+                good = prove_ge0(TS - (lab2 - TF) - ONE, f4, ax3) and prove_ge0(lab2 - TS, f4, ax3) and _on_grid(lab2, S, TF) and S2 is not None and E2 is not None and (E2 - S2).same(TF)
+                sub_ok = sub_ok and good
+            if sub_ok:
+                res.ok("R-INTERVAL", {"branch": descr, "label": repr(label)[:120], "proved": "case by case on the conditional label"}, nontrivial=descr)
+            else:
+                res.errors.append(f"{cc.where}: branch [{descr[:120]}] files the candle under a conditional label the analysis cannot decide case by case")
+            continue
         ok_inv = isinstance(new_S, Num) and isinstance(new_E, Num) and (new_E.f - new_S.f).same(TF)
         # obligations: label - TF < ts <= label  and label on the grid, using rd axioms
         extra = [TF - ONE]
@@ -488,6 +540,9 @@ def _collapse_invariant(prop, res, repo, cc, loop, pre_live, outs, S, TF, TS, R)
             else:
                 f2.append(c)
         lab = label_v.f
+        if any(a[0] == "ite" for a in lab.atoms() | new_S.f.atoms() | new_E.f.atoms()):
+            res.errors.append(f"{cc.where}: branch [{descr[:100]}] re-labels through a conditional value (a flag selects the label): the invariant rule cannot decide this shape")
+            continue
         in_set = lab == new_S.f or lab == new_E.f or lab.same(new_S.f) or lab.same(new_E.f)
         if in_set:
             res.ok(rule, {"branch": descr, "re-establishes": f"new last label {lab!r} is the new window's {'start' if lab == new_S.f else 'end'}"}, nontrivial="inv:" + descr)
